@@ -1,9 +1,12 @@
 (* C11 model: messages pushed from several threads onto one event-loop connection.
 
    cassandra/io/asyncioreactor.py  AsyncioConnection.push      -> `chunks` (in the calling thread), then
-                                   run_coroutine_threadsafe(_push_msg(chunks))   = op Push  (task appended to the loop's FIFO)
-                                   _push_msg (one loop step, no await between put_nowait calls) = op RunTask
-                                   handle_write: get() one chunk, sock_sendall it              = op Write
+                                   run_coroutine_threadsafe(_push_msg(chunks)) (application thread) or
+                                   loop.create_task(_push_msg(chunks)) (loop thread)            = op Push
+                                   the loop runs its oldest ready entry (handoff -> task step; task step = _push_msg,
+                                   no await between put_nowait calls)                           = op RunReady
+                                   handle_write: get() one chunk, sock_sendall it; the socket may accept the chunk in
+                                   several partial sends                                        = op SendPart k
    cassandra/io/twistedreactor.py  TwistedConnection.push      -> reactor.callFromThread(transport.write, data)
                                    = mode Whole: the task carries the message as a single chunk.
    Any interleaving of threads and loop steps is a list of ops.  No proofs in this file. *)
@@ -41,47 +44,89 @@ Definition mode_ok (md : mode) : Prop := match md with Chunked n => (0 < n)%nat 
 
 Record task := mkTask { t_thread : nat; t_msg : msg; t_chunks : list msg }.
 
-Record pstate := mkP {
-  todo : nat -> list msg;          (* what each thread will still push, in its program order *)
-  tasks : list task;               (* scheduled on the loop, not yet run (call_soon_threadsafe / callFromThread FIFO) *)
-  queue : list msg;                (* _write_queue *)
-  wire : list Z;                   (* bytes handed to the socket *)
-  order : list (nat * msg)         (* ghost: every push that was scheduled, in scheduling order *)
+(* The event loop's ready queue (asyncio `_ready`, twisted `threadCallQueue`) is ONE FIFO.
+   asyncio, push() from an application thread: run_coroutine_threadsafe = a threadsafe callback (EHandoff) that, when run,
+     creates the _push_msg task, whose first step (EStep) is appended to the SAME queue;
+   asyncio, push() on the loop thread itself (response callbacks: handshake steps, retries, ...): loop.create_task ->
+     EStep directly;   twisted, any thread: reactor.callFromThread(transport.write, data) -> EStep directly (one chunk).
+   `direct t` says which mechanism thread t uses (asyncio: t is the loop thread; twisted: every thread). *)
+Inductive entry := EHandoff (tk : task) | EStep (tk : task).
+
+Record pcfg := mkCfg {
+  p_mode : mode;
+  p_direct : nat -> bool;
+  p_keep_rest : bool      (* the writer keeps the unsent rest of a chunk (loop.sock_sendall / twisted transport buffer do) *)
 }.
 
-Inductive op := Push (t : nat) | RunTask | Write.
+Record pstate := mkP {
+  todo : nat -> list msg;          (* what each thread will still push, in its program order *)
+  ready : list entry;              (* the loop's ready queue *)
+  queue : list msg;                (* asyncio _write_queue / twisted transport buffer *)
+  cur : list Z;                    (* unsent rest of the chunk the writer is sending (sock_sendall in progress) *)
+  wire : list Z;                   (* bytes accepted by the socket *)
+  order : list (nat * msg)         (* ghost: messages in the order their chunks entered `queue` *)
+}.
 
-Definition step (md : mode) (s : pstate) (o : op) : pstate :=
+(* Push t: thread t calls push() with its next message;  RunReady: the loop runs the oldest ready entry (a _push_msg
+   step enqueues ALL chunks of its message: no await between put_nowait calls);  SendPart k: the socket accepts up to
+   k bytes of the chunk being written (the writer fetches the next chunk when it has none in progress) *)
+Inductive op := Push (t : nat) | RunReady | SendPart (k : nat).
+
+Definition step (c : pcfg) (s : pstate) (o : op) : pstate :=
   match o with
   | Push t =>
     match todo s t with
     | [] => s
     | m :: rest =>
       let todo' := fun u => if Nat.eqb u t then rest else todo s u in
-      match chunks_mode md m with
-      | None => mkP todo' (tasks s) (queue s) (wire s) (order s)            (* push() raised in the caller *)
-      | Some cs => mkP todo' (tasks s ++ [mkTask t m cs]) (queue s) (wire s) (order s ++ [(t, m)])
+      match chunks_mode (p_mode c) m with
+      | None => mkP todo' (ready s) (queue s) (cur s) (wire s) (order s)            (* push() raised in the caller *)
+      | Some cs =>
+        let tk := mkTask t m cs in
+        mkP todo' (ready s ++ [if p_direct c t then EStep tk else EHandoff tk]) (queue s) (cur s) (wire s) (order s)
       end
     end
-  | RunTask =>
-    match tasks s with
+  | RunReady =>
+    match ready s with
     | [] => s
-    | tk :: rest => mkP (todo s) rest (queue s ++ t_chunks tk) (wire s) (order s)
+    | EHandoff tk :: rest => mkP (todo s) (rest ++ [EStep tk]) (queue s) (cur s) (wire s) (order s)
+    | EStep tk :: rest => mkP (todo s) rest (queue s ++ t_chunks tk) (cur s) (wire s) (order s ++ [(t_thread tk, t_msg tk)])
     end
-  | Write =>
-    match queue s with
-    | [] => s
-    | c :: rest => mkP (todo s) (tasks s) rest (wire s ++ c) (order s)     (* `if next_msg:` skips b'' -- same bytes *)
+  | SendPart k =>
+    match cur s with
+    | [] =>
+      match queue s with
+      | [] => s
+      | ch :: rest => mkP (todo s) (ready s) rest (if p_keep_rest c then skipn k ch else []) (wire s ++ firstn k ch) (order s)
+      end
+    | _ :: _ => mkP (todo s) (ready s) (queue s) (if p_keep_rest c then skipn k (cur s) else []) (wire s ++ firstn k (cur s)) (order s)
     end
   end.
 
-Definition init (prog : nat -> list msg) : pstate := mkP prog [] [] [] [].
+Definition init (prog : nat -> list msg) : pstate := mkP prog [] [] [] [] [].
 
-Definition run (md : mode) (prog : nat -> list msg) (ops : list op) : pstate :=
-  fold_left (step md) ops (init prog).
+Definition run (c : pcfg) (prog : nat -> list msg) (ops : list op) : pstate :=
+  fold_left (step c) ops (init prog).
 
 Definition thread_part (t : nat) (l : list (nat * msg)) : list msg :=
   map snd (filter (fun x => Nat.eqb (fst x) t) l).
+
+(* messages of thread t waiting in the ready queue: first those whose task step is scheduled, then those still handed off *)
+Fixpoint steps_of (t : nat) (l : list entry) : list msg :=
+  match l with
+  | [] => []
+  | EStep tk :: r => if Nat.eqb (t_thread tk) t then t_msg tk :: steps_of t r else steps_of t r
+  | EHandoff _ :: r => steps_of t r
+  end.
+
+Fixpoint handoffs_of (t : nat) (l : list entry) : list msg :=
+  match l with
+  | [] => []
+  | EHandoff tk :: r => if Nat.eqb (t_thread tk) t then t_msg tk :: handoffs_of t r else handoffs_of t r
+  | EStep _ :: r => handoffs_of t r
+  end.
+
+Definition drained (s : pstate) : Prop := ready s = [] /\ queue s = [] /\ cur s = [].
 
 (* ------------------------------------------------------------------ correspondence helpers *)
 (* programs as a list (thread i = i-th list); a message = (byte value, length) *)
@@ -104,17 +149,26 @@ Fixpoint rle_eqb (a b : list (Z * Z)) : bool :=
   | _, _ => false
   end.
 
-(* schedule = the order in which the threads' pushes were scheduled; then the loop drains everything *)
-Definition wire_of_schedule (md : mode) (p : list (list (Z * nat))) (sched : list nat) (maxchunks : nat) : list Z :=
-  wire (run md (prog_of p) (map Push sched ++ repeat RunTask (length sched) ++ repeat Write maxchunks)).
+Fixpoint mem_nat (x : nat) (l : list nat) : bool :=
+  match l with [] => false | y :: l' => Nat.eqb x y || mem_nat x l' end.
 
-(* interleaved variant: after every push the loop may already run/write (same wire, by C11_order) *)
-Definition wire_of_schedule_eager (md : mode) (p : list (list (Z * nat))) (sched : list nat) (maxchunks : nat) : list Z :=
-  wire (run md (prog_of p) (flat_map (fun t => [Push t; RunTask; Write]) sched ++ repeat Write maxchunks)).
+(* schedule = the order in which the messages entered the write queue (read off the received stream);
+   `pattern` = how many bytes the socket accepted at each send attempt, then everything is flushed *)
+Definition wire_of_schedule (md : mode) (direct : list nat) (p : list (list (Z * nat))) (sched : list nat)
+           (pattern : list nat) (flush : nat) (big : nat) : list Z :=
+  wire (run (mkCfg md (fun t => mem_nat t direct) true) (prog_of p)
+            (flat_map (fun t => [Push t; RunReady; RunReady]) sched ++ map SendPart pattern ++ repeat (SendPart big) flush)).
 
-Definition check_wire (md : mode) (p : list (list (Z * nat))) (sched : list nat) (maxchunks : nat) (received : list (Z * Z)) : bool :=
-  rle_eqb (rle (wire_of_schedule md p sched maxchunks)) received
-  && rle_eqb (rle (wire_of_schedule_eager md p sched maxchunks)) received.
+(* same pushes, but the loop writes eagerly between them *)
+Definition wire_of_schedule_eager (md : mode) (direct : list nat) (p : list (list (Z * nat))) (sched : list nat)
+           (pattern : list nat) (flush : nat) (big : nat) : list Z :=
+  wire (run (mkCfg md (fun t => mem_nat t direct) true) (prog_of p)
+            (flat_map (fun t => [Push t; RunReady; RunReady; SendPart big; SendPart 1]) sched ++ map SendPart pattern ++ repeat (SendPart big) flush)).
+
+Definition check_wire (md : mode) (direct : list nat) (p : list (list (Z * nat))) (sched : list nat)
+           (pattern : list nat) (flush : nat) (big : nat) (received : list (Z * Z)) : bool :=
+  rle_eqb (rle (wire_of_schedule md direct p sched pattern flush big)) received
+  && rle_eqb (rle (wire_of_schedule_eager md direct p sched pattern flush big)) received.
 
 Definition chunk_lengths (n : nat) (len : nat) : option (list nat) :=
   match chunks n (repeat 0%Z len) with Some cs => Some (map (@length Z) cs) | None => None end.
